@@ -928,15 +928,28 @@ func sourceHasFallback(src []utils.Source) bool {
 	return false
 }
 
-// appendJoinSelectors collects the selectors of join operands, including joins nested inside them. Only selectors
-// that carry their own `or <always returning>` fallback are skipped, an always returning operand elsewhere in the
+// appendOperandSelectors collects the selectors of an operand that the query result depends on (a join side or the
+// right side of `unless <condition>`): its own selector, unless it carries its own `or <always returning>` fallback,
+// the joins nested inside it and its conditional `unless` operands. An always returning operand elsewhere in the
 // query (`foo and on() hour() > 9`) doesn't make the other operands optional.
-func appendJoinSelectors(n parser.PromQLExpr, selectors []*promParser.VectorSelector, joins []utils.Join) []*promParser.VectorSelector {
-	for _, js := range joins {
-		if js.Src.Selector != nil && !selectorHasFallback(n, js.Src.Selector) {
-			selectors = append(selectors, selectorWithoutOffset(js.Src.Selector))
+func appendOperandSelectors(n parser.PromQLExpr, selectors []*promParser.VectorSelector, src utils.Source) []*promParser.VectorSelector {
+	if src.Selector != nil && !selectorHasFallback(n, src.Selector) {
+		selectors = append(selectors, selectorWithoutOffset(src.Selector))
+	}
+	for _, js := range src.Joins {
+		selectors = appendOperandSelectors(n, selectors, js.Src)
+	}
+	return appendUnlessSelectors(n, selectors, src.Unless)
+}
+
+// appendUnlessSelectors follows `foo unless bar > 5` operands, `foo unless bar` only tests for presence of bar
+// so bar is allowed to be missing there.
+func appendUnlessSelectors(n parser.PromQLExpr, selectors []*promParser.VectorSelector, unless []utils.Join) []*promParser.VectorSelector {
+	for _, us := range unless {
+		if !us.Src.IsConditional {
+			continue
 		}
-		selectors = appendJoinSelectors(n, selectors, js.Src.Joins)
+		selectors = appendOperandSelectors(n, selectors, us.Src)
 	}
 	return selectors
 }
@@ -973,15 +986,10 @@ func getNonFallbackSelectors(n parser.PromQLExpr) (selectors []*promParser.Vecto
 				selectors = append(selectors, selectorWithoutOffset(ls.Selector))
 			}
 		}
-		selectors = appendJoinSelectors(n, selectors, ls.Joins)
-		for _, us := range ls.Unless {
-			if !us.Src.IsConditional {
-				continue
-			}
-			if us.Src.Selector != nil {
-				selectors = append(selectors, selectorWithoutOffset(us.Src.Selector))
-			}
+		for _, js := range ls.Joins {
+			selectors = appendOperandSelectors(n, selectors, js.Src)
 		}
+		selectors = appendUnlessSelectors(n, selectors, ls.Unless)
 	}
 	return selectors
 }
